@@ -172,6 +172,14 @@ class CCodeGenerator:
         if not isinstance(ival, expressions.CExpression):
             raise TypeError("ival must be an Expression")
 
+        if isinstance(ival, expressions.CompoundLiteral) and isinstance(
+            typ, (types.StructType, types.UnionType)
+        ):
+            # struct P g = (struct P){5, 6}; the value of a compound literal
+            # with constant initializers is taken as constant (as gcc does).
+            ival = ival.init
+            typ = ival.typ
+
         if isinstance(typ, types.ArrayType):
             mem = self.gen_global_initialize_array(typ, ival)
         elif isinstance(typ, types.StructType):
